@@ -132,6 +132,9 @@ class DUCBGeneralized(TaskSelector):
         return self.tasks[self.chosen_arm]
 
     def feedback(self, reward: float):
+        # enforce the select/feedback protocol before touching the bandit
+        super().feedback(reward)
+
         last_rewards = np.array(self.last_rewards[self.chosen_arm])[::-1]
 
         if len(last_rewards) == 0:
@@ -158,8 +161,6 @@ class DUCBGeneralized(TaskSelector):
             elif self.op == "neg":
                 intrinsic_reward *= -1
             self.ducb.reward(intrinsic_reward)
-
-        super().feedback(reward)
 
         self.last_rewards[self.chosen_arm].append(reward)
 
